@@ -7,6 +7,7 @@ ops  = 0 Map page frame flags | 1 Unmap page | 2 Translate va | 3 MapTemporary f
      | 9 IdentityMapRegion frame size flags | 10 Poke frame idx value | 11 Fill frame seed | 12 reserveZeroedFrame
      | 13 Fault addr errcode | 14 GPF addr | 15 setupPDTForKernel off n (flags addr size)*n | 16 EarlyReserveRegion size
      | 17 FlipPathEntry page level xormask   (set-up)
+     | 18 OrUpperEntryBits page level mask   (set-up: translation-neutral bits into a present upper-level entry; level 3 = recursive entry of the active root)
 """
 import os, sys
 sys.path.insert(0, os.path.join(os.path.dirname(os.path.abspath(__file__)), '..', 'lib'))
@@ -26,10 +27,10 @@ VIEW_LO, VIEW_HI = 0x300000000000, 0x400000000000
 P, RW, US, PWT, PCD, ACC, DIRTY, HUGE, GLOBAL, COW, NX = 1, 2, 4, 8, 16, 32, 64, 128, 256, 512, 1 << 63
 KOFF = 0xffff800000000000
 
-NARGS = {0: 3, 1: 1, 2: 1, 3: 1, 4: 2, 5: 4, 6: 2, 7: 1, 8: 3, 9: 3, 10: 3, 11: 2, 12: 0, 13: 2, 14: 1, 15: 1, 16: 1, 17: 3}
+NARGS = {0: 3, 1: 1, 2: 1, 3: 1, 4: 2, 5: 4, 6: 2, 7: 1, 8: 3, 9: 3, 10: 3, 11: 2, 12: 0, 13: 2, 14: 1, 15: 1, 16: 1, 17: 3, 18: 3}
 NAMES = {0: 'Map', 1: 'Unmap', 2: 'Translate', 3: 'MapTemporary', 4: 'PdtInit', 5: 'PdtMap', 6: 'PdtUnmap', 7: 'PdtActivate',
          8: 'MapRegion', 9: 'IdentityMapRegion', 10: 'Poke', 11: 'Fill', 12: 'reserveZeroedFrame', 13: 'Fault', 14: 'GPF',
-         15: 'setupPDTForKernel', 16: 'EarlyReserveRegion', 17: 'FlipPathEntry'}
+         15: 'setupPDTForKernel', 16: 'EarlyReserveRegion', 17: 'FlipPathEntry', 18: 'OrUpperEntryBits'}
 
 
 def page_of(i0, i1, i2, i3, canon=True):
@@ -188,3 +189,29 @@ class AllocSim:
                 n += 1
         self.consumed += n
         return n
+
+SAFE_BITS = 0xFFF0000000000F7E
+EXTRA_BITS = [ACC, DIRTY, GLOBAL, COW, 1 << 10, 1 << 11, NX, 1 << 52, 1 << 58, 1 << 62, US, PWT, PCD]
+
+
+def extra_mask(rng):
+    """bits the CPU or an OS may leave in an upper-level entry: Accessed almost always, then a random subset"""
+    m = ACC if rng.random() < 0.8 else 0
+    for b in EXTRA_BITS:
+        if rng.random() < 0.25:
+            m |= b
+    return m
+
+
+def any_leaf_flags(rng, present=True):
+    """flag word drawn from ALL bits outside the frame field (bit 7 is PAT in a 4K leaf)"""
+    f = 0
+    for b in range(12):
+        if rng.random() < 0.3:
+            f |= 1 << b
+    for b in (52, 55, 59, 62, 63):
+        if rng.random() < 0.2:
+            f |= 1 << b
+    if present:
+        f |= P
+    return f
